@@ -395,6 +395,8 @@ def _strategy():
     VARS = ['VERIF_A', 'VERIF_B', 'VERIF_C', 'VERIF_PORT', 'VERIF_N']
     sval = st.text(alphabet='abcXYZ019_./:+-', min_size=1, max_size=8)
     ival = st.integers(0, 9).map(str)
+    # a variable may be defined with an empty value ("X =")
+    eval_ = st.one_of(sval, sval, ival, ival, st.just(''))
 
     @st.composite
     def case(draw):
@@ -402,7 +404,7 @@ def _strategy():
                                           st.one_of(sval, ival), max_size=3))
         genv = None
         if draw(st.integers(0, 3)) > 0:
-            genv = [[kk, draw(st.one_of(sval, ival))]
+            genv = [[kk, draw(eval_)]
                     for kk in draw(st.lists(st.sampled_from(VARS),
                                             max_size=3, unique=True))]
         names = draw(st.lists(st.sampled_from(
@@ -413,7 +415,7 @@ def _strategy():
             pats = draw(st.lists(st.sampled_from(
                 names + ['worker*', 'w*', '*', 'nomatch', 'api']),
                 min_size=1, max_size=2, unique=True))
-            items = [[kk, draw(st.one_of(sval, ival))]
+            items = [[kk, draw(eval_)]
                      for kk in draw(st.lists(st.sampled_from(
                          VARS + ['OTHER_X']), min_size=1, max_size=2,
                          unique=True))]
@@ -451,6 +453,8 @@ def _strategy():
         for name in names:
             opts = []
             p = pieces(name)
+            if p[0][0] != 'lit':
+                p = [['lit', 'prog']] + p     # never an empty command
             opts.append(['cmd', render_value(p),
                          {"pieces": p, "type": "str"}])
             chosen = draw(st.lists(st.sampled_from(
